@@ -11,10 +11,8 @@ kf = os.path.join(HERE, 'known_findings.jsonl')
 if os.path.exists(kf):
     for line in open(kf):
         line = line.strip()
-        if line and not line.startswith('#'):
-            k = json.loads(line)
-            if k.get('status') == 'fixed' and k.get('commit'):
-                fixes.append(k['commit'])
+        if line.startswith('fixed:'):
+            fixes.append(line.split()[2])
 checks = []
 for p in props:
     if p in registry.CLAIMED:
